@@ -393,5 +393,10 @@ def lawTrans (ab bc ac : Ordering) : Bool :=
 def lawEqOrd (ab : Ordering) (eq : Bool) : Bool := (ab == .eq) == eq
 /-- equal values hash equally -/
 def lawEqHash (eq sameHash : Bool) : Bool := !eq || sameHash
+/-- the order identifies exactly the identical values: no coarser notion of equality (length of a
+duration, numeric value, component list, …) may make two different values `Equal` -/
+def lawOrdIdent (ab : Ordering) (identical : Bool) : Bool := (ab == .eq) == identical
+/-- values the order identifies hash equally (index keys and hash keys agree) -/
+def lawOrdHash (ab : Ordering) (sameHash : Bool) : Bool := ab != .eq || sameHash
 
 end SgModel.PV
